@@ -36,14 +36,17 @@ def pool(kind: str, rng: random.Random):
     if kind == "duration":
         a, b = rng.sample(["PT3H4M1S", "P1D", "PT0.5S", "P2W", "PT36H", "P1DT1S", "PT1M",
                            ("obj", dict(days=3)), ("obj", dict(months=1, days=2)), ("obj", dict(years=1, hours=12)),
-                           ("obj", dict(weeks=1, seconds=0.25))], 2)
+                           ("obj", dict(weeks=1, seconds=0.25)), ("obj", dict(days=-1)), ("obj", dict(days=-2)), "-P1D"], 2)
         return [T.Duration(**x[1]) if isinstance(x, tuple) else x for x in (a, b)]
     if kind == "unit":
         return [T.PintUnit(x) if rng.random() < 0.4 else x
-                for x in rng.sample(["meter", "kilogram / second ** 2", "candela * meter", "1 / second", "kelvin"], 2)]
+                for x in rng.sample(["meter", "kilogram / second ** 2", "candela * meter", "1 / second", "kelvin",
+                                     "1 / meter", "1 / meter ** 2"], 2)]
     if kind == "quantity":
         return [T.PintQuantity(x) if rng.random() < 0.4 else x
-                for x in rng.sample(["5 meter", "7.12 kilogram / second ** 2", "0 second", "1e-09 meter", "-3 kelvin", "2.5 1 / second"], 2)]
+                # (-1 and -2 have the same Python hash)
+                for x in rng.sample(["5 meter", "7.12 kilogram / second ** 2", "0 second", "1e-09 meter", "-3 kelvin", "2.5 1 / second",
+                                     "-1 meter", "-2 meter"], 2)]
     if kind == "literal":
         return ["a", "b"]
     if kind == "url":
